@@ -266,6 +266,16 @@ func init() {
 				hs.Println(hs.V("i"), hs.V("k"), hs.V("m"), hs.V("total")))}
 			return mainOnly([]*hs.Func{half}, hs.LetS("total", hs.I(0)), loop, hs.Println(hs.CallN("half", hs.I(8)), hs.CallN("half", hs.I(-1)), hs.V("total")))
 		}},
+		callCase{"match-with-no-arm-or-only-a-default-arm", func() *hs.Program {
+			only := hs.Fn("only", hs.TStr, hs.Blk(&hs.Match{X: hs.V("n"), Arms: []hs.MatchArm{{Body: hs.S("always")}}}), intP("n"))
+			return mainOnly([]*hs.Func{only},
+				hs.LetS("x", hs.I(3)),
+				hs.ES(&hs.Match{X: hs.V("x")}),
+				hs.Println(hs.S("after an empty match")),
+				hs.LetS("v", &hs.Match{X: hs.V("x"), Arms: []hs.MatchArm{{Body: hs.Bin("+", hs.V("x"), hs.I(1))}}}),
+				hs.Println(hs.V("v"), hs.CallN("only", hs.I(1))),
+				&hs.For{Var: "i", Iter: &hs.RangeLit{From: hs.I(0), To: hs.I(3)}, Body: hs.Blk(nil, hs.ES(&hs.Match{X: hs.V("i")}), hs.ES(&hs.Match{X: hs.V("i"), Arms: []hs.MatchArm{{Body: &hs.BlockExpr{B: hs.Blk(nil, hs.Println(hs.S("d"), hs.V("i")))}}}}))})
+		}},
 		callCase{"null-function-as-statement-and-value", func() *hs.Program {
 			f := hs.Fn("side", nil, hs.Blk(nil, hs.Println(hs.S("side"), hs.V("a"))), intP("a"))
 			return mainOnly([]*hs.Func{f}, hs.ES(hs.CallN("side", hs.I(1))), hs.ES(hs.CallN("side", hs.I(2))), hs.LetS("k", hs.I(3)), hs.Println(hs.V("k")))
